@@ -18,7 +18,7 @@ RULE = (
     "reference {ch1,max,min,center,numeric}: zero at the reference channel, antisymmetric in DM, monotone in frequency, within "
     "0.5+1e-3(1+|d|) samples of the exact-rational formula. part 2: per band, every DM of a set with both signs and maxdelay<nsamps x "
     "{block rotation, valid-samples variant} x reference choices, streamed dedispersion x gulps {1,5,7,N,10N}, read_dedisp_block x "
-    "every in-range (start,nsamps), every row of dmt_transform (full and valid, 1/3/5 steps), pulse restoration and DM,-DM identity; "
+    "every in-range (start,nsamps), every row of dmt_transform (full and valid, 1..5 steps), pulse restoration and DM,-DM identity; "
     "compared exactly with x[c,t+d_c] on labelled data. Non-trivial = any case with a non-zero delay"
 )
 ASSUMPTIONS = [
@@ -270,7 +270,7 @@ def _paths(wd, shard, ctx, res, only):
             else:
                 good("read_dedisp", d)
     # ---- DM-time transform rows
-    for steps in (1, 3, 5):
+    for steps in (1, 2, 3, 4, 5):
         for valid in (False, True):
             for ref in ("ch1", 1300.0):
                 name = "dmt_valid" if valid else "dmt"
